@@ -155,10 +155,18 @@ def run_check(pid, tier, seed):
     clines = corpus + m["lines"]
     cimpl = [proto.run_impl(l) for l in corpus] + m["impl"]
     # model side
-    model = []
-    CH = 20000
-    for i in range(0, len(clines), CH):
-        model += proto.run_model(clines[i:i + CH])
+    # the model side: the driver is run on chunks of lines, several chunks at a time (a chunk of capacity lines - hundreds
+    # of power-iteration steps in exact rational / exact double arithmetic each - is kept small)
+    heavy = any(l.startswith(("cap ", "capf ", "capr ")) for l in clines[:2000])
+    CH = 250 if heavy else 20000
+    chunks = [clines[i:i + CH] for i in range(0, len(clines), CH)]
+    if len(chunks) > 1:
+        from concurrent.futures import ThreadPoolExecutor
+        with ThreadPoolExecutor(max_workers=int(os.environ.get("VERIF_MODEL_JOBS", "8"))) as ex:
+            results = list(ex.map(lambda c: proto.run_model(c, timeout=1800), chunks))
+    else:
+        results = [proto.run_model(c, timeout=1800) for c in chunks]
+    model = [x for r in results for x in r]
     disagreements = []
     float_tie = None
     random_tie = {"what": "cap lines with two or more start vectors (assumed random stream)", "lines": 0, "status": "holds"}
